@@ -172,6 +172,40 @@ def make_sub(extra):
     return Sub
 
 
+def apply_share(d, share):
+    """share = {"pairs": [[src path, dst path], ...], "top": [top-level keys in order]}: the same dict object at
+    both paths; the top-level key ORDER is part of the case (it decides which occurrence a merge walks second) and is
+    recorded explicitly because replay files are written with sorted keys"""
+    if not share:
+        return d
+    pairs = share["pairs"] if isinstance(share, dict) else share
+    if isinstance(share, dict) and share.get("top"):
+        for k in [k for k in share["top"] if k in d] + [k for k in list(d) if k not in share["top"]]:
+            d[k] = d.pop(k)
+    for src, dst in pairs:
+        obj = get_path(d, src)
+        par = get_path(d, dst[:-1])
+        if isinstance(obj, dict) and isinstance(par, dict):
+            par[dst[-1]] = obj
+    return d
+
+
+def write_level_file(path_noext, data, share):
+    """a config file for one level: JSON, or - when sub-objects are shared - YAML with an anchor and an alias"""
+    import json
+    os.makedirs(os.path.dirname(path_noext), exist_ok=True)
+    if share:
+        from invoke.util import yaml
+        f = path_noext + ".yaml"
+        with open(f, "w") as fd:
+            fd.write(yaml.safe_dump(apply_share(copy.deepcopy(data), share)))
+    else:
+        f = path_noext + ".json"
+        with open(f, "w") as fd:
+            json.dump(data, fd)
+    return f
+
+
 class Impl:
     """Real Config objects driven by operations.  `sources` keeps every dict handed to a config."""
 
@@ -189,8 +223,10 @@ class Impl:
         self.merges = {}  # object -> number of re-merges so far, counted from the HISTORY (see after_op)
         self._before = None  # root view of the addressed object before the current operation (when handles exist)
 
-    def hand(self, label, data):
-        d = copy.deepcopy(data)
+    def hand(self, label, data, share=None):
+        """caller-held data handed to a configuration; `share` = [[src path, dst path], ...]: the SAME dict object
+        sits at both key paths (what one shared Python object, or a YAML anchor + alias, gives)"""
+        d = apply_share(copy.deepcopy(data), share)
         self.sources.append((label, d, copy.deepcopy(d)))
         return d
 
@@ -248,8 +284,9 @@ class Impl:
         from invoke.config import Config
         n = op["op"]
         if n == "NEW":
-            c = Config(defaults=self.hand("defaults", op["defaults"]), overrides=self.hand("overrides", op["overrides"]),
-                       lazy=True, **NOFILES)
+            sh = op.get("share", {})
+            c = Config(defaults=self.hand("defaults", op["defaults"], sh.get("defaults")),
+                       overrides=self.hand("overrides", op["overrides"], sh.get("overrides")), lazy=True, **NOFILES)
             self.objs.append(c)
             return ABSENT
         if n == "NEWF":
@@ -259,7 +296,7 @@ class Impl:
             if op.get("via_coll"):
                 d = self.from_collection(op["data"])
             else:
-                d = self.hand(op["slot"], op["data"])
+                d = self.hand(op["slot"], op["data"], op.get("share", {}).get("data"))
             {"defaults": c.load_defaults, "overrides": c.load_overrides, "collection": c.load_collection}[op["slot"]](d)
             return ABSENT
         if n == "ENV":
@@ -267,7 +304,7 @@ class Impl:
                 c.load_shell_env()
             return ABSENT
         if n == "LOADU":
-            d = self.hand(op["slot"], op["data"])
+            d = self.hand(op["slot"], op["data"], op.get("share", {}).get("data"))
             {"defaults": c.load_defaults, "overrides": c.load_overrides, "collection": c.load_collection}[op["slot"]](
                 d, merge=False)
             return ABSENT
@@ -275,7 +312,7 @@ class Impl:
             c.merge()
             return ABSENT
         if n in ("RUNTIME", "PROJECT"):
-            return self._reload_file(c, n, op["data"])
+            return self._reload_file(c, n, op["data"], op.get("share", {}).get("data"))
         if n == "CLONE":
             if op.get("into") is None:
                 k = c.clone()
@@ -504,19 +541,18 @@ class Impl:
             elif tgt and any(t == hd["keys"][:len(t)] for t in tgt):
                 hd["alive"] = False  # the section (or an ancestor) was overwritten by a dict-valued write
 
-    def _reload_file(self, c, kind, data):
+    def _reload_file(self, c, kind, data, share=None):
         """point the runtime / project level at a new location and load it from a real file (removed afterwards);
         data None: a runtime path that does not exist"""
-        import json
         from invoke.config import Config
         self.nfiles += 1
         midfix = Config.file_prefix or Config.prefix
         base = os.path.join(self.tmpdir, "reload%d" % self.nfiles)
         os.makedirs(base, exist_ok=True)
-        f = os.path.join(base, "rt.json" if kind == "RUNTIME" else midfix + ".json")
+        stem = os.path.join(base, "rt" if kind == "RUNTIME" else midfix)
+        f = stem + ".json"
         if data is not None:
-            with open(f, "w") as fd:
-                json.dump(data, fd)
+            f = write_level_file(stem, data, share)
         if kind == "RUNTIME":
             c.set_runtime_path(f)
             c.load_runtime()
@@ -528,24 +564,26 @@ class Impl:
         return ABSENT
 
     def _newf(self, op):
-        """a config whose four file levels are loaded from real JSON files (removed again afterwards)"""
-        import json
+        """a config whose four file levels are loaded from real files (JSON; YAML with anchors when a level shares
+        sub-objects), removed again afterwards"""
         from invoke.config import Config
         base = os.path.join(self.tmpdir, "o%d" % len(self.objs))
         midfix = Config.file_prefix or Config.prefix
-        files = {"system": os.path.join(base, "sys", midfix + ".json"), "user": os.path.join(base, "usr", midfix + ".json"),
-                 "project": os.path.join(base, "proj", midfix + ".json"), "runtime": os.path.join(base, "rt.json")}
-        for s, f in files.items():
+        sh = op.get("share", {})
+        stems = {"system": os.path.join(base, "sys", midfix), "user": os.path.join(base, "usr", midfix),
+                 "project": os.path.join(base, "proj", midfix), "runtime": os.path.join(base, "rt")}
+        files = {}
+        for s, stem in stems.items():
             if op[s] is not None:
-                os.makedirs(os.path.dirname(f), exist_ok=True)
-                with open(f, "w") as fd:
-                    json.dump(op[s], fd)
-        c = Config(defaults=self.hand("defaults", op["defaults"]), overrides=self.hand("overrides", op["overrides"]),
+                files[s] = write_level_file(stem, op[s], sh.get(s))
+        c = Config(defaults=self.hand("defaults", op["defaults"], sh.get("defaults")),
+                   overrides=self.hand("overrides", op["overrides"], sh.get("overrides")),
                    system_prefix=os.path.join(base, "sys", ""), user_prefix=os.path.join(base, "usr", ""),
-                   project_location=os.path.join(base, "proj"), runtime_path=files["runtime"], lazy=False)
+                   project_location=os.path.join(base, "proj"), runtime_path=files.get("runtime", stems["runtime"] + ".json"),
+                   lazy=False)
         c.load_project()
         c.load_runtime()
-        for s, f in files.items():
+        for f in files.values():
             if os.path.exists(f):
                 os.remove(f)
         self.objs.append(c)
